@@ -61,6 +61,18 @@ import EsbuildModel.Impl.TargetsDriver
 import EsbuildModel.Impl.IdentLexDriver
 import EsbuildModel.Impl.ChunkNamesDriver
 import EsbuildModel.Impl.RegexLex
+import EsbuildModel.Impl.CommentIndent
+import EsbuildModel.Impl.RealPath
+import EsbuildModel.Impl.AssetHashDriver
+import EsbuildModel.Impl.MetaImports
+import EsbuildModel.Impl.PrintKeyDriver
+import EsbuildModel.Impl.FsCacheDriver
+import EsbuildModel.Impl.PrivLower
+import EsbuildModel.Impl.TsClassWire
+import EsbuildModel.Impl.TsNsDriver
+import EsbuildModel.Impl.CtxLockDriver
+import EsbuildModel.Impl.ParWrites
+import EsbuildModel.Impl.StmtMangleDriver
 
 open EsbuildModel
 
@@ -132,6 +144,20 @@ def dispatch (kernel : String) (args : List String) : String :=
   | "identlex" => IdentLex.driver args
   | "chunknames" => ChunkNames.driver args
   | "regexlex" => RegexLex.driver args
+  | "commentindent" => CommentIndent.driver args
+  | "realpath" => RealPath.driver args
+  | "assethash" => AssetHash.driver args
+  | "metaimports" => MetaImports.driver args
+  | "printkey" => PrintKey.driver args
+  | "fscache" => FsCache.driver args
+  | "privlower" => PrivLower.driver args
+  | "privlowersem" => PrivLower.semDriver args
+  | "tsclass" => TsClass.driver args
+  | "tsclasssem" => TsClass.semDriver args
+  | "tsns" => TsNs.Driver.driver args
+  | "ctxlock" => CtxLock.driver args
+  | "parwrites" => ParWrites.driver args
+  | "stmtmangle" => MiniJS.stmtMangleDriver args
   | _ => "bad-kernel"
 
 partial def loop (hin hout : IO.FS.Stream) : IO Unit := do
